@@ -34,7 +34,7 @@ type Row = Vec<(String, String)>;
 
 fn pools() -> &'static Vec<(usize, rayon::ThreadPool)> {
     static P: OnceLock<Vec<(usize, rayon::ThreadPool)>> = OnceLock::new();
-    P.get_or_init(|| [1usize, 2, 3, 8, 16].iter().map(|n| (*n, rayon::ThreadPoolBuilder::new().num_threads(*n).build().expect("pool"))).collect())
+    P.get_or_init(|| (1usize..=16).collect::<Vec<_>>().iter().map(|n| (*n, rayon::ThreadPoolBuilder::new().num_threads(*n).build().expect("pool"))).collect())
 }
 
 #[derive(Clone)]
@@ -406,7 +406,10 @@ fn check_case(c: &Case) -> Outcome {
         o.class_if(assigns.iter().any(|a| a.contains(&2)), "executed:nested-loop-join");
     }
     // ---- 4. threads ----
-    for n in [2usize, 3, 8, 16] {
+    // quick: pools of 2, 3, 8, 16 workers; thorough: every size 2..=16 (size 1 is the baseline of every other variant)
+    let thorough = std::env::var("VERIF_TIER").map_or(false, |t| t == "thorough");
+    let sizes: Vec<usize> = if thorough { (2..=16).collect() } else { vec![2, 3, 8, 16] };
+    for n in sizes {
         if !variant(&mut o, &format!("threads:{n}"), &text, StatsKind::Fresh, None, n, &mut plans) {
             return o;
         }
@@ -517,7 +520,7 @@ fn main() {
         "generated (dataset, join-heavy SELECT * pattern) pairs (BGPs of 2-5 patterns incl. stars and chains, nested in GRAPH/UNION/sub-SELECT/VALUES; 30% wide datasets of 100-420 default triples so bind-join chunking is reachable); \
          per case the public planning pipeline (parse_combined_query -> build_logical_plan_from_group -> Streamertail::with_cached_stats_and_dataset -> find_best_plan -> ExecutionEngine::execute_with_ids_and_dataset) is run as: baseline (source order, fresh stats, chosen plan, 1 thread); \
          3 random permutations of every BGP; empty / stale (gathered from another dataset) / adversarial (every public DatabaseStats field filled with generated values <= 10^6, missing and never-issued ids, disagreeing graph catalog) statistics; \
-         every assignment of {bind, hash, nested-loop} to the join nodes of the chosen plan when there are <=3 (else all-bind/all-hash/all-NL + sampled), alternating TableScan<->IndexScan flips; rayon pools of 2,3,8,16 threads; \
+         every assignment of {bind, hash, nested-loop} to the join nodes of the chosen plan when there are <=3 (else all-bind/all-hash/all-NL + sampled), alternating TableScan<->IndexScan flips; rayon pools of 2,3,8,16 threads (thorough tier: every size 2..16; size 1 is the baseline); \
          plus end-to-end: query, mutate through the API (statistics cache stays), query again. Every variant's solution multiset must equal the baseline's, which must equal the reference evaluator's. \
          Non-trivial = the chosen plan has >=1 join node, the answer is non-empty and >=2 distinct physical plans were executed; inner_evaluations counts pipeline executions.",
     );
